@@ -50,6 +50,12 @@ impl SwiftField for Field75 {
             }
 
             // Validate SWIFT character set
+            if line.is_empty() {
+                return Err(ParseError::InvalidFormat {
+                    message: "Field75 line cannot be empty".to_string(),
+                });
+            }
+
             parse_swift_chars(line, "Field75 line")?;
             information.push(line.to_string());
         }
